@@ -123,7 +123,7 @@ func alphabet(kind string, level, depth, pos, total int) []string {
 		for _, n := range nsz {
 			ops = append(ops, fmt.Sprintf("next %d", n))
 		}
-		gsz := [][]int{{0, 1, 70}, {1, 70}, {70}}[level]
+		gsz := [][]int{{0, 1, 70, 1 << 62}, {1, 70}, {70}}[level] // 1<<62: the documented ErrTooLarge panic, then go on
 		for _, n := range gsz {
 			ops = append(ops, fmt.Sprintf("grow %d", n))
 		}
@@ -251,6 +251,9 @@ func randomSeq(c *hx.Ctx, kind string, maxLen int, offDomain bool) string {
 				op = "reset"
 			default:
 				sz := pickSize(c, []int{capacity - total, capacity - total + 1, capacity/2 - unread, capacity/2 - unread + 1, 70}, 200)
+				if c.Rng.Intn(12) == 0 {
+					sz = hugeGrow(c, capacity)
+				}
 				if offDomain && c.Rng.Intn(3) == 0 {
 					sz = c.Rng.Pick([]int{-1, -64, math.MinInt64})
 				}
@@ -456,7 +459,11 @@ func largeSeq(c *hx.Ctx, kind string, allowMiB bool) string {
 		case r < 92:
 			op = "reset"
 		case kind == "buffer":
-			op = fmt.Sprintf("grow %d", wsize())
+			if c.Rng.Intn(5) == 0 {
+				op = fmt.Sprintf("grow %d", hugeGrow(c, capacity))
+			} else {
+				op = fmt.Sprintf("grow %d", wsize())
+			}
 		case r < 96:
 			op = "rbyte"
 		default:
@@ -536,6 +543,180 @@ func largeTemplates(c *hx.Ctx, kind string, sizes []int, light bool) {
 	}
 }
 
+// ---------------------------------------------------------------- documented panics, then continue
+
+// hugeGrow: Grow sizes that must end in the documented ErrTooLarge panic WITHOUT any allocation being attempted: either
+// the overflow test c > maxInt-c-n trips, or makeSlice's make([]byte, 2c+n) panics because 2c+n exceeds the runtime's
+// maxAlloc (2^48). Sizes with 2c+n <= 2^48 are never generated (a huge but admissible allocation is a fatal out-of-memory
+// error, not a panic). The object is used further afterwards: a caller may recover.
+func hugeGrow(c *hx.Ctx, capacity int) int {
+	xs := []int{1 << 62, 1<<48 + 1, 1 << 49, 1 << 55, math.MaxInt, math.MaxInt - 1, math.MaxInt / 2,
+		math.MaxInt - 2*capacity, math.MaxInt - 2*capacity + 1, math.MaxInt - 2*capacity - 1}
+	return c.Rng.Pick(xs)
+}
+
+// panicTemplates: consumed prefix + unread data, then an op that panics by design (Grow(huge), Grow(-1), Next(-1)),
+// then the object is used as if nothing had happened.
+func panicTemplates(c *hx.Ctx) {
+	for i, s := range []int{5, 64, 70, 200, 4096, 70000} {
+		for _, k := range []int{0, 1, s / 2, s - 1, s} {
+			for j, bad := range []string{"grow 4611686018427387904", "grow 281474976710657", "grow 9223372036854775807", "grow -1", "next -1"} {
+				if (i+j)%2 == 1 && s > 200 { // thin out the large ones
+					continue
+				}
+				pl := fmt.Sprintf("#%d:%d", s, 16*i+j)
+				if s >= 4096 {
+					pl = fmt.Sprintf("@%d:%d", s, 16*i+j)
+				}
+				c.Emit("buffer | write %s ; read %d ; %s ; read 3 ; %s ; write 0a0b0c ; tidy ; %s ; read %d", pl, k, bad, bad, bad, s+10)
+				c.Count("buffer_panic_then_continue")
+			}
+		}
+	}
+}
+
+// ---------------------------------------------------------------- long-running objects
+
+var repCounts = []int{255, 256, 257, 300, 600, 1100}
+
+// longRunning: one object that once held a burst of >= 4 KiB and then lives through k rounds of small
+// write / read / tidy (plus seek, grow, rbyte, reset variants); observed after every single op.
+func longRunning(c *hx.Ctx, kind string, k int) string {
+	burst := c.Rng.Pick([]int{4096, 5000, 8192, 70000})
+	rem := c.Rng.Pick([]int{0, 1, 7, 50})
+	n := c.Rng.Range(1, 9)
+	m := c.Rng.Range(1, n)
+	head := fmt.Sprintf("write @%d:%d ; read %d", burst, c.Rng.Intn(256), burst-rem)
+	if c.Rng.Bool() {
+		head += " ; tidy"
+	}
+	var body string
+	switch c.Rng.Intn(6) {
+	case 0: // balanced
+		body = fmt.Sprintf("rep %d ( write #%d:$ , read %d , tidy )", k, n, n)
+	case 1: // residue grows by n-m per round
+		body = fmt.Sprintf("rep %d ( write #%d:$ , read %d , tidy )", k, n, m)
+	case 2:
+		body = fmt.Sprintf("rep %d ( write #%d:$ , read %d , tidy , seek 0 1 , read 1 )", k, n+1, m)
+	case 3:
+		if kind == "buffer" {
+			body = fmt.Sprintf("rep %d ( write #%d:$ , next %d , tidy , grow %d , read 1 )", k, n+1, m, c.Rng.Pick([]int{0, 1, 70}))
+		} else {
+			body = fmt.Sprintf("rep %d ( wi16 $ , rbyte , tidy , write #%d:$ , rbyte , read %d , tidy )", k, n, m)
+		}
+	case 4: // two lives separated by a Reset
+		body = fmt.Sprintf("rep %d ( write #%d:$ , read %d , tidy ) ; reset ; write @%d:%d ; read %d ; rep %d ( write #%d:$ , read %d , tidy )",
+			k/2, n, m, burst, c.Rng.Intn(256), burst-rem, k, n, m)
+	default: // every round ends drained
+		body = fmt.Sprintf("rep %d ( write #%d:$ , read %d , tidy , read %d )", k, n, m, n+rem+1)
+	}
+	return fmt.Sprintf("%s | %s ; %s ; read 100 ; write 0102 ; tidy ; read 100", kind, head, body)
+}
+
+// ---------------------------------------------------------------- two objects in one case
+
+func twoObjTemplates(c *hx.Ctx, kind string, sizes []int) {
+	for i, s := range sizes {
+		a := fmt.Sprintf("@%d:%d", s, (29*i+3)%256)
+		b := fmt.Sprintf("@%d:%d", s, (29*i+150)%256)
+		fill := fmt.Sprintf("a: write %s ; b: write %s", a, b)
+		small := "a: write 0a0b0c ; b: write 1a1b1c1d ; a: read 2 ; b: read 2 ; a: write 0d ; b: tidy ; b: write 1e1f ; a: read 100 ; b: read 100"
+		// both objects: fill, release (reset / drain / one each), then small traffic on both at the same time
+		c.Emit("%s | %s ; a: reset ; b: reset ; %s", kind, fill, small)
+		c.Emit("%s | %s ; a: read %d ; b: read %d ; %s", kind, fill, s, s, small)
+		c.Emit("%s | %s ; a: read %d ; a: tidy ; b: reset ; %s ; a: reset ; b: write %s ; a: write 2a2b ; b: read %d ; a: read 5", kind, fill, s-1, small, a, s+1)
+		c.Count(kind + "_two_objects_template")
+		c.Count(kind + "_two_objects_template")
+		c.Count(kind + "_two_objects_template")
+	}
+}
+
+type life struct {
+	p     *probe
+	phase int // 0 fill, 1 release, 2 small traffic
+	left  int
+}
+
+func (l *life) next(c *hx.Ctx, kind string) string {
+	pos, total, unread, _ := l.p.state()
+	var op string
+	switch l.phase {
+	case 0:
+		sz := pickLarge(c, false)
+		if c.Rng.Intn(10) < 6 {
+			sz = c.Rng.Pick([]int{65537, 66000, 70000, 131072})
+		}
+		op = "write " + bigPayload(c, sz)
+		if l.left--; l.left <= 0 {
+			l.phase = 1
+		}
+	case 1:
+		switch r := c.Rng.Intn(10); {
+		case r < 3:
+			op = "reset"
+		case r < 7:
+			op = fmt.Sprintf("read %d", unread)
+		case r < 8 && kind == "buffer":
+			op = fmt.Sprintf("next %d", unread+1)
+		default:
+			op = fmt.Sprintf("read %d", unread-c.Rng.Pick([]int{1, 2, 64}))
+			if strings.Contains(op, "-") {
+				op = "read 1"
+			}
+		}
+		l.phase, l.left = 2, c.Rng.Range(2, 7)
+	default:
+		switch r := c.Rng.Intn(20); {
+		case r < 9:
+			op = "write " + randPayload(c, c.Rng.Pick([]int{1, 2, 3, 8, 30, 63, 64, 65}))
+		case r < 13:
+			op = fmt.Sprintf("read %d", c.Rng.Pick([]int{1, 2, 5, 64, 100}))
+		case r < 15:
+			op = "tidy"
+		case r < 16:
+			op = randomSeek(c, pos, total)
+		case r < 17:
+			op = "reset"
+		case r < 19 && kind == "buffer":
+			op = fmt.Sprintf("grow %d", c.Rng.Pick([]int{0, 1, 64, 70}))
+		case r < 19:
+			op = "rbyte"
+		default:
+			op = fmt.Sprintf("read %d", unread)
+		}
+		if l.left--; l.left <= 0 {
+			if c.Rng.Intn(3) == 0 {
+				l.left = c.Rng.Range(2, 5)
+			} else {
+				l.phase, l.left = 0, c.Rng.Range(1, 2)
+			}
+		}
+	}
+	l.p.apply(op)
+	return op
+}
+
+// twoObjSeq: two objects of the same kind living through fill (large) / release (reset or drain) / small-traffic cycles,
+// randomly interleaved: state must never leak from one object into the other.
+func twoObjSeq(c *hx.Ctx, kind string) string {
+	objs := map[string]*life{"a": {p: newProbe(kind), left: c.Rng.Range(1, 2)}, "b": {p: newProbe(kind), left: c.Rng.Range(1, 2)}}
+	n := c.Rng.Range(12, 40)
+	ops := make([]string, 0, n)
+	for i := 0; i < n; i++ {
+		sel := "a"
+		if c.Rng.Bool() {
+			sel = "b"
+		}
+		ops = append(ops, sel+": "+objs[sel].next(c, kind))
+		_, _, ua, ca := objs["a"].p.state()
+		_, _, ub, cb := objs["b"].p.state()
+		if kind == "buffer" && ca > 65536 && cb > 65536 && ua > 0 && ua <= 64 && ub > 0 && ub <= 64 {
+			c.Count("two_objects_both_cap_gt_64k_unread_le_64")
+		}
+	}
+	return kind + " | " + strings.Join(ops, " ; ")
+}
+
 // mix64: SplitMix64 finaliser. hx.NewRng(seed) starts the Weyl sequence at seed*G, so consecutive seeds would yield the
 // same stream shifted by one draw; seeding with a mixed value makes the streams of different VERIF_SEEDs unrelated.
 func mix64(z uint64) uint64 {
@@ -574,9 +755,28 @@ func gen(c *hx.Ctx) {
 			largeTemplates(c, kind, largeSizes, false)
 			largeTemplates(c, kind, []int{mib}, true)
 		}
-		for i, n := 0, c.Budget(200, 1500); i < n; i++ {
+		for i, n := 0, c.Budget(120, 1500); i < n; i++ {
 			c.Emit("%s", largeSeq(c, kind, i%c.Budget(10, 3) == 0)) // 1 MiB chunks only in every 10th / 3rd sequence (model run time)
 			c.Count(kind + "_large_random")
+		}
+	}
+	// long-running objects: a burst, then hundreds of small write/read/tidy rounds on the same object
+	for _, kind := range []string{"buffer", "stream"} {
+		for _, k := range repCounts {
+			for i, n := 0, c.Budget(5, 15); i < n; i++ {
+				c.Emit("%s", longRunning(c, kind, k))
+				c.Count(kind + "_long_running")
+			}
+		}
+	}
+	// documented panics followed by further use of the object
+	panicTemplates(c)
+	// two objects in one case
+	for _, kind := range []string{"buffer", "stream"} {
+		twoObjTemplates(c, kind, append([]int{100, 4096}, largeSizes...))
+		for i, n := 0, c.Budget(60, 800); i < n; i++ {
+			c.Emit("%s", twoObjSeq(c, kind))
+			c.Count(kind + "_two_objects_random")
 		}
 	}
 	// off the property's domain (negative Next/Grow sizes): model fidelity of the panic outcomes only
